@@ -25,6 +25,8 @@ def main():
     h = importlib.import_module(f'harness.{hname}')
     if hasattr(h, 'main'):
         sys.exit(h.main(args.tier, args.seed))
+    if args.tier == 'thorough' and 'SYMX_XSOLVER_EVERY' not in os.environ:
+        os.environ['SYMX_XSOLVER_EVERY'] = '9'       # second solver (cvc5) re-checks a sample of z3's unsat verdicts; inherited by the workers
     sys.exit(runner.main_check(args.property, hname, args.tier, args.seed))
 
 
